@@ -541,6 +541,18 @@ static void write_gc_log(void) {
     fclose(f);
 }
 
+/* VERIF_VT_EXIT=<path>: the virtual clock (ms since start) when the process exits, i.e. when the event loop had
+ * nothing left to wait for. Under virtual time a loop kept alive by a left-over timer exits "at once" in real time;
+ * only the clock shows that it waited. */
+static const char *vt_exit_path = NULL;
+static void write_vt_exit(void) {
+    if (!vt_exit_path) return;
+    FILE *f = fopen(vt_exit_path, "w");
+    if (!f) return;
+    fprintf(f, "%.3f\n", (double)(__atomic_load_n(&vnow_ns, __ATOMIC_SEQ_CST) - 1000000000000LL) / 1e6);
+    fclose(f);
+}
+
 int main(int argc, char **argv) {
     /* Deterministic addresses: re-exec once with ASLR disabled. */
     if (!getenv("VERIF_NO_ASLR_OFF")) {
@@ -581,6 +593,7 @@ int main(int argc, char **argv) {
     is_main_thread_inited = 1;
     if ((e = getenv("VERIF_OPT_PASSES")) && *e) opt_passes = atoi(e) & 3;
     atexit(write_gc_log);
+    if ((e = getenv("VERIF_VT_EXIT")) && *e) { vt_exit_path = strdup(e); atexit(write_vt_exit); }
 
     janet_init();
     JanetTable *env = janet_core_env(NULL);
